@@ -1,5 +1,6 @@
 import Zc.Proofs.Sched
 import Zc.Proofs.Sched2
+import Zc.Proofs.SchedRefreshed
 /-! # C10 — the browser keeps learned services alive: refresh queries, rate limit, liveness
 
 Model: `Zc.Sched` (`lean/Zc/Model/Sched.lean`), the `QueryScheduler` of `_services/browser.py` **after**
@@ -299,6 +300,279 @@ theorem C10_refresh_chain_before_start (types : List String) (minDelay : Nat) (q
   rw [hw] at hch
   exact chain_mono_outs (chain_mono_outs (chain_mono_outs (chain_mono_outs hch)))
 
+/-! ### refreshed records (second review, finding 1)
+
+`C10_refresh_chain` is about an instance never seen before.  For a record that **refreshes** a known instance the scheduler may
+keep the instance's existing entry (churn rule, `reschedule_ptr_first_refresh`: kept when the new 75 % time is within `minDelay`
+of the entry's time), so the chain starts at the kept time `w'` with `|w' − w| ≤ minDelay`, `w = cr + 750·ttl`, and the first
+query comes in `[w', w' + minDelay] ⊆ [w − minDelay, w + 2·minDelay]`.  That bound is tight: `C10_refreshed_one_delay_refuted`
+is a history in which the refresh query is sent `minDelay + 8 999 ms` after `w` (delay 10 s).  The English says "each at most the
+configured inter-query delay late": the one-delay bound holds exactly when the kept entry is not *later* than `w`
+(`C10_refreshed_one_delay_partial`); the complementary class is the finding `C10:refresh-late-kept-schedule`
+(`known_findings.json`).  Readings stated here: (1) "at about 75 percent" admits a query up to `minDelay` *early* for a kept
+schedule (the English bounds lateness only); (2) "again at further 10 percent steps" is read from the query actually sent — each
+follow-up is due 10 % of the TTL after the previous query and is at most `minDelay` late with respect to that (`Chain`); measured
+against the absolute 85 % / 95 % instants the lateness of the earlier queries adds up. -/
+
+/-- hypothesis "every pointer update of instance `a` in `evs` carries the type `n`" (an instance name determines its type: it ends
+with it; the kept entry keeps the `name` it was created with) -/
+def C10.SameType (a n : String) (evs : List (Int × Op)) : Prop := ∀ e ∈ evs, e.2.named a n = true
+
+/-- hypothesis of the one-delay bound (exactly the complement of the finding's signature): when the refresh arrives, the instance's
+live entry — if it has one — is not scheduled *after* the new 75 % time `w` -/
+def C10.NotKeptLater (c : Cfg) (tS : Int) (hist : List (Int × Op)) (a : String) (w : Int) : Prop :=
+  ∀ s2 o2 cur, exec c {} tS hist = some (s2, o2) → current a s2.heap = some cur → cur.when ≤ w
+
+open C10 in
+/-- **The refresh chain of a refreshed record, true bound.**  Any history of an active browser in which instance `a` may have been
+seen, refreshed, withdrawn any number of times (`pre0`, `pre`; always under the type `n`), then a pointer record for it (TTL `ttl`,
+created `cr`) at `t`, at least `minDelay` before its 75 % time `w = cr + 750·ttl` (true of every record just received: TTL ≥ 1125 s
+puts `w` 843 s ahead, delays are ≤ 60 s) and `w` at least `minDelay` after the start-up phase, then blocks leaving it untouched.
+Then there is a time `w'` within `minDelay` of `w` — `w` itself, or the time of the entry the instance had when the refresh arrived
+(kept) — from which the whole chain runs with the refreshed TTL and expiry: a query for `n` in `[w', w' + minDelay]`, the next one
+10 % of the TTL after it (at most `minDelay` late), … until expiry.  In particular the first query lies in
+`[w − minDelay, w + 2·minDelay]`. -/
+theorem C10_refreshed_chain (types : List String) (minDelay : Nat) (qtype : Option Bool) (tS : Int) (pre0 : List (Int × Op))
+    (t0 : Int) (d : Nat) (pre : List (Int × Op)) (t : Int) (a n : String) (ttl : Nat) (cr : Int) (evs : List (Int × Op))
+    (s' : S) (outs : List Send) (links : Nat)
+    (hidle : IdleOps pre0) (hn0 : SameType a n pre0) (hpre : Active pre) (hn : SameType a n pre)
+    (hact : Active evs) (hun : Untouched a evs)
+    (hbefore : t + minDelay ≤ cr + 750 * ttl) (hlate : t0 + d + 14000 + minDelay ≤ cr + 750 * ttl)
+    (hex : exec (browserCfg types minDelay qtype) {} tS
+      (pre0 ++ (t0, .start d) :: (pre ++ (t, .ptr a n ttl cr) :: evs)) = some (s', outs)) :
+    ∃ w', cr + 750 * ttl - minDelay ≤ w' ∧ w' ≤ cr + 750 * ttl + minDelay ∧
+      (w' = cr + 750 * ttl ∨ ∃ s2 o2 cur, exec (browserCfg types minDelay qtype) {} tS (pre0 ++ (t0, .start d) :: pre) = some (s2, o2) ∧
+        current a s2.heap = some cur ∧ w' = cur.when) ∧
+      Chain (browserCfg types minDelay qtype) n ttl (cr + 1000 * ttl) (lastTime t evs) outs links w' := by
+  have hsplit : pre0 ++ (t0, Op.start d) :: (pre ++ (t, Op.ptr a n ttl cr) :: evs) =
+      (pre0 ++ (t0, Op.start d) :: pre) ++ (t, Op.ptr a n ttl cr) :: evs := by simp
+  rw [hsplit] at hex
+  obtain ⟨s2, oP, oT, hexP, hexT, rfl⟩ := exec_append _ _ {} tS _ s' outs hex
+  rw [lastTime_append] at hexT
+  -- facts about the state in which the refresh arrives
+  have hu2 : Uniq s2.heap := uniq_exec _ _ {} tS s2 oP C10_initial_uniq hexP
+  have hname2 : NameInv a n s2.heap := by
+    refine nameinv_exec _ a n _ {} tS s2 oP (by intro q hq; simp at hq) ?_ hexP
+    intro e he
+    rcases List.mem_append.1 he with he | he
+    · exact hn0 e he
+    · rcases List.mem_cons.1 he with rfl | he
+      · rfl
+      · exact hn e he
+  obtain ⟨s0, s1, _, _, _, hpre1, _, _, hexpre⟩ := C10_opening _ tS pre0 t0 d pre s2 oP hidle hexP
+  have hinv := inv_exec _ (t0 + d) pre s1 t0 s2 oP (Or.inl hpre1) hpre hexpre
+  obtain ⟨hen, s3, o3, o4, hst3, hex3, rfl⟩ := exec_cons hexT
+  simp only [step, Option.some.injEq, Prod.mk.injEq] at hst3
+  -- the instance's entry after the refresh
+  have hent := reschedule_entry (browserCfg types minDelay qtype) hu2 a n ttl cr
+  have hwhen := reschedule_entry_when (browserCfg types minDelay qtype) hu2 a n ttl cr
+  obtain ⟨q, hq, hqe⟩ := exists_entry_of_cnt_pos (a := a) (h := (reschedule (browserCfg types minDelay qtype) s2 a n ttl cr).heap)
+    (by rw [hent.1]; exact Nat.one_pos)
+  obtain ⟨hqttl, hqexp, hlo, hhi⟩ := hent.2 q hq hqe
+  have hql : q.cancelled = false ∧ q.alias = a := by simpa [isEntry] using hqe
+  have hqname : q.name = n := by
+    have h3 : NameInv a n (reschedule (browserCfg types minDelay qtype) s2 a n ttl cr).heap :=
+      nameinv_step (browserCfg types minDelay qtype) hname2 (t := t) (op := .ptr a n ttl cr) (by simp [Op.named]) rfl
+    exact h3 q hq hql.2
+  have hmd : (browserCfg types minDelay qtype).minDelay = minDelay := rfl
+  rw [hmd] at hlo hhi
+  have hq3 : q ∈ s3.heap := by rw [← hst3.1]; exact hq
+  have hactun : ∀ e ∈ evs, e.2.active = true ∧ e.2.touches q.alias = false :=
+    fun e he => ⟨hact e he, by rw [hql.2]; exact hun e he⟩
+  refine ⟨q.when, by omega, by omega, ?_, ?_⟩
+  · rcases hwhen q hq hqe with h | ⟨cur, hc, h⟩
+    · exact Or.inl h
+    · exact Or.inr ⟨s2, oP, cur, hexP, hc, h⟩
+  · rw [← hst3.2]
+    refine chain_mono_outs (chain_mono_outs ?_)
+    rcases hinv with hp | ⟨hp, hearl⟩
+    · have hp3 : Pre (t0 + d) s3 := by rw [← hst3.1]; exact pre_reschedule _ hp a n ttl cr
+      exact chain_pre _ n ttl (cr + 1000 * ttl) (t0 + d) evs links s3 t s' o4 q hp3 hq3 hql.1 hqname hqttl hqexp
+        (by omega) (by rw [hmd]; omega) hactun hex3
+    · have hclk2 := (enabled_post hp hen).1
+      have hp3 : Post s3 := by rw [← hst3.1]; exact post_reschedule _ hp a n ttl cr
+      have he3 : s3.earliest = s2.earliest := by rw [← hst3.1]; simp
+      exact chain_core _ n ttl (cr + 1000 * ttl) evs links s3 t s' o4 q hp3 hq3 hql.1 hqname hqttl hqexp
+        (by rw [he3, hmd]; rw [hmd] at hearl; omega) (by rw [hmd]; omega) hactun hex3
+
+/-- the sentence "at most the configured inter-query delay late" for the refresh query of a refreshed record, at full strength:
+a query for the type in `[w − minDelay, w + minDelay]` (or the history has not gone beyond `w + minDelay`) -/
+def C10_refreshed_one_delay_full : Prop :=
+  ∀ (types : List String) (minDelay : Nat) (qtype : Option Bool) (tS : Int) (pre0 : List (Int × Op))
+    (t0 : Int) (d : Nat) (pre : List (Int × Op)) (t : Int) (a n : String) (ttl : Nat) (cr : Int) (evs : List (Int × Op))
+    (s' : S) (outs : List Send),
+    IdleOps pre0 → SameType a n pre0 → Active pre → SameType a n pre → Active evs → Untouched a evs →
+    t + minDelay ≤ cr + 750 * ttl → t0 + d + 14000 + minDelay ≤ cr + 750 * ttl →
+    exec (browserCfg types minDelay qtype) {} tS (pre0 ++ (t0, .start d) :: (pre ++ (t, .ptr a n ttl cr) :: evs)) = some (s', outs) →
+    lastTime t evs ≤ cr + 750 * ttl + minDelay ∨
+      ∃ o ∈ outs, cr + 750 * ttl - minDelay ≤ o.t ∧ o.t ≤ cr + 750 * ttl + minDelay ∧ n ∈ o.types
+
+open C10 in
+/-- **`_partial`** — holds when the instance's entry, at the moment the refresh arrives, is not scheduled after the new 75 % time
+(`NotKeptLater`; in particular for an instance without an entry, and whenever the refreshed record's 75 % time is not earlier than
+the old schedule — the usual refresh with an equal or longer TTL).  What is missing is exactly the finding
+`C10:refresh-late-kept-schedule`: entry kept at `k ∈ (w, w + minDelay]`, another pass inside `(k − minDelay, k)`. -/
+theorem C10_refreshed_one_delay_partial (types : List String) (minDelay : Nat) (qtype : Option Bool) (tS : Int) (pre0 : List (Int × Op))
+    (t0 : Int) (d : Nat) (pre : List (Int × Op)) (t : Int) (a n : String) (ttl : Nat) (cr : Int) (evs : List (Int × Op))
+    (s' : S) (outs : List Send)
+    (hidle : IdleOps pre0) (hn0 : SameType a n pre0) (hpre : Active pre) (hn : SameType a n pre)
+    (hact : Active evs) (hun : Untouched a evs)
+    (hbefore : t + minDelay ≤ cr + 750 * ttl) (hlate : t0 + d + 14000 + minDelay ≤ cr + 750 * ttl)
+    (hkept : NotKeptLater (browserCfg types minDelay qtype) tS (pre0 ++ (t0, .start d) :: pre) a (cr + 750 * ttl))
+    (hex : exec (browserCfg types minDelay qtype) {} tS
+      (pre0 ++ (t0, .start d) :: (pre ++ (t, .ptr a n ttl cr) :: evs)) = some (s', outs)) :
+    lastTime t evs ≤ cr + 750 * ttl + minDelay ∨
+      ∃ o ∈ outs, cr + 750 * ttl - minDelay ≤ o.t ∧ o.t ≤ cr + 750 * ttl + minDelay ∧ n ∈ o.types := by
+  obtain ⟨w', hlo, _, hsrc, hch⟩ := C10_refreshed_chain types minDelay qtype tS pre0 t0 d pre t a n ttl cr evs s' outs 1
+    hidle hn0 hpre hn hact hun hbefore hlate hex
+  have hle : w' ≤ cr + 750 * ttl := by
+    rcases hsrc with h | ⟨s2, o2, cur, h1, h2, h3⟩
+    · omega
+    · rw [h3]; exact hkept s2 o2 cur h1 h2
+  have hmd : (browserCfg types minDelay qtype).minDelay = minDelay := rfl
+  rcases hch with h | ⟨o, ho, h1, h2, h3, _⟩
+  · left; rw [hmd] at h; omega
+  · right; rw [hmd] at h2; exact ⟨o, ho, by omega, by omega, h3⟩
+
+/-- the witness history (delay 10 s, two types): instance `a` of type `_x` learned at 100 ms with TTL 4500 s (75 % time 3 375 100),
+refreshed at 2 522 350 with TTL 1125 s (new 75 % time `w` = 3 366 100; the old schedule, 9 s later, is kept); instance `b` of type
+`_y` learned at 2 531 349 with TTL 1125 s (75 % time 3 375 099, one millisecond before `a`'s kept schedule).  The pass at
+3 375 099 asks `_y`; the rate limit moves the next pass to 3 385 099, where `_x` is asked: 18 999 ms after `w`. -/
+def C10.lateWitness : List (Int × Op) :=
+  [(50, .fire false), (100, .ptr "a" "_x" 4500 100), (1050, .fire false), (5050, .fire false), (14050, .fire false), (24050, .fire false)]
+
+open C10 in
+/-- **`_refuted`**: the full one-delay statement fails at `lateWitness` (reproduced on the real scheduler: `corpus/C10/refresh-late-kept-schedule.json`) -/
+theorem C10_refreshed_one_delay_refuted : ¬ C10_refreshed_one_delay_full := by
+  intro h
+  have hs : (exec (browserCfg ["_x", "_y"] 10000 none) {} 0
+      ([] ++ (0, .start 50) :: (lateWitness ++ (2522350, .ptr "a" "_x" 1125 2522350) ::
+        [(2531349, .ptr "b" "_y" 1125 2531349), (3375099, .fire false), (3385099, .fire false)]))).map
+        (fun r => r.2.map (fun o => (o.t, o.types))) =
+      some [(50, ["_x", "_y"]), (1050, ["_x", "_y"]), (5050, ["_x", "_y"]), (14050, ["_x", "_y"]), (3375099, ["_y"]), (3385099, ["_x"])] := by
+    decide
+  cases hx : exec (browserCfg ["_x", "_y"] 10000 none) {} 0
+      ([] ++ (0, .start 50) :: (lateWitness ++ (2522350, .ptr "a" "_x" 1125 2522350) ::
+        [(2531349, .ptr "b" "_y" 1125 2531349), (3375099, .fire false), (3385099, .fire false)])) with
+  | none => rw [hx] at hs; cases hs
+  | some p =>
+    obtain ⟨s', outs⟩ := p
+    rw [hx] at hs
+    simp only [Option.map_some, Option.some.injEq] at hs
+    have := h ["_x", "_y"] 10000 none 0 [] 0 50 lateWitness 2522350 "a" "_x" 1125 2522350
+      [(2531349, .ptr "b" "_y" 1125 2531349), (3375099, .fire false), (3385099, .fire false)] s' outs
+      (by intro e he; cases he) (by intro e he; cases he) (by unfold Active lateWitness; decide) (by unfold SameType lateWitness; decide)
+      (by unfold Active; decide) (by unfold Untouched; decide) (by decide) (by decide) hx
+    rcases this with h1 | ⟨o, ho, h1, h2, h3⟩
+    · revert h1; decide
+    · have hm : (o.t, o.types) ∈ outs.map (fun o => (o.t, o.types)) := List.mem_map_of_mem ho
+      rw [hs] at hm
+      simp only [List.mem_cons, Prod.mk.injEq, List.not_mem_nil, or_false] at hm
+      rcases hm with ⟨e1, e2⟩ | ⟨e1, e2⟩ | ⟨e1, e2⟩ | ⟨e1, e2⟩ | ⟨e1, e2⟩ | ⟨e1, e2⟩
+      all_goals first
+        | (rw [e1] at h1 h2; revert h1 h2; decide)
+        | (rw [e2] at h3; revert h3; decide)
+
+/-- the hypotheses of `C10_refreshed_chain` / `C10_refreshed_one_delay_partial` are satisfiable: at `lateWitness` all but
+`NotKeptLater` hold (previous example); `NotKeptLater` holds e.g. for the same history with the refresh carrying TTL 4500 again
+(new 75 % time 5 897 350 ≥ old schedule) -/
+example : C10.NotKeptLater (browserCfg ["_x", "_y"] 10000 none) 0 ([] ++ (0, .start 50) :: C10.lateWitness) "a" (2522350 + 750 * (4500 : Nat)) := by
+  intro s2 o2 cur h1 h2
+  have hw : ((exec (browserCfg ["_x", "_y"] 10000 none) {} 0 ([] ++ (0, .start 50) :: C10.lateWitness)).bind
+      (fun r => current "a" r.1.heap)).map (·.when) = some 3375100 := by decide
+  rw [h1] at hw
+  simp only [Option.bind_some, h2, Option.map_some, Option.some.injEq] at hw
+  omega
+
+/-- `SameType`, `Active`, `Untouched` and the two arithmetic hypotheses of `C10_refreshed_chain` hold at the witness history -/
+example : C10.SameType "a" "_x" C10.lateWitness ∧ C10.Active C10.lateWitness ∧
+    C10.Untouched "a" [(2531349, Op.ptr "b" "_y" 1125 2531349), (3375099, .fire false), (3385099, .fire false)] ∧
+    (2522350 : Int) + (10000 : Nat) ≤ 2522350 + 750 * (1125 : Nat) ∧ (0 : Int) + (50 : Nat) + 14000 + (10000 : Nat) ≤ 2522350 + 750 * (1125 : Nat) := by
+  unfold C10.SameType C10.Active C10.Untouched C10.lateWitness
+  decide
+
+/-! ### "no service is reported Removed by expiry without refresh attempts having been made" — per instance
+
+The browser reports `Removed` by expiry in the block in which `async_update_records` finds the cached pointer record expired
+(`DNSRecord.is_expired`, the cache's expiry test: C05's purge hands exactly the records with `created + 1000·ttl ≤ now` to the
+listeners, `C05_purge_exact` / `C05_purge_listeners`) and calls `cancel_ptr_refresh` — in the model a block `(te, cancel a)` with
+`is_expired cr ttl te`.  The theorems say what has been sent by then, for **that instance's own schedule** (not "some query for the
+type"). -/
+
+open C10 in
+/-- **Removed by expiry only after the refresh attempts.**  Any history as in `C10_refreshed_chain` (the record of instance `a`,
+TTL `ttl`, created `cr`, seen for the first time or as a refresh, then left untouched) that ends with the block reporting its expiry
+at `te` (`is_expired cr ttl te`).  Then the instance's whole chain has been carried out **before the expiry** `E = cr + 1000·ttl`:
+starting at `w'` within `minDelay` of 75 %, every link — the query in `[w', w' + minDelay]`, the follow-up 10 % of the TTL after
+it, … — has been sent, up to the first link whose deadline `wₖ + minDelay` is not before `E` (`Chain` with horizon `E`). -/
+theorem C10_removed_after_attempts (types : List String) (minDelay : Nat) (qtype : Option Bool) (tS : Int) (pre0 : List (Int × Op))
+    (t0 : Int) (d : Nat) (pre : List (Int × Op)) (t : Int) (a n : String) (ttl : Nat) (cr : Int) (evs : List (Int × Op)) (te : Int)
+    (s' : S) (outs : List Send) (links : Nat)
+    (hidle : IdleOps pre0) (hn0 : SameType a n pre0) (hpre : Active pre) (hn : SameType a n pre)
+    (hact : Active evs) (hun : Untouched a evs)
+    (hbefore : t + minDelay ≤ cr + 750 * ttl) (hlate : t0 + d + 14000 + minDelay ≤ cr + 750 * ttl)
+    (hexp : Gen.Dns.is_expired cr ttl te = true)
+    (hex : exec (browserCfg types minDelay qtype) {} tS
+      (pre0 ++ (t0, .start d) :: (pre ++ (t, .ptr a n ttl cr) :: (evs ++ [(te, .cancel a)]))) = some (s', outs)) :
+    ∃ w', cr + 750 * ttl - minDelay ≤ w' ∧ w' ≤ cr + 750 * ttl + minDelay ∧
+      Chain (browserCfg types minDelay qtype) n ttl (cr + 1000 * ttl) (cr + 1000 * ttl) outs links w' := by
+  have hE : cr + 1000 * (ttl : Int) ≤ te := (is_expired_iff _ _ _).1 hexp
+  have hsplit : ∀ x : Int × Op, pre0 ++ (t0, Op.start d) :: (pre ++ (t, Op.ptr a n ttl cr) :: (evs ++ [x])) =
+      (pre0 ++ (t0, Op.start d) :: (pre ++ (t, Op.ptr a n ttl cr) :: evs)) ++ [x] := by intro x; simp
+  rw [hsplit] at hex
+  obtain ⟨s'', hex'⟩ := exec_swap_last_cancel _ _ {} tS te a (a ++ "!") s' outs hex
+  rw [← hsplit] at hex'
+  have hact' : Active (evs ++ [(te, Op.cancel (a ++ "!"))]) := by
+    intro e he
+    rcases List.mem_append.1 he with he | he
+    · exact hact e he
+    · simp only [List.mem_singleton] at he; subst he; rfl
+  have hun' : Untouched a (evs ++ [(te, Op.cancel (a ++ "!"))]) := by
+    intro e he
+    rcases List.mem_append.1 he with he | he
+    · exact hun e he
+    · simp only [List.mem_singleton] at he; subst he; exact append_bang_ne a
+  obtain ⟨w', h1, h2, _, hch⟩ := C10_refreshed_chain types minDelay qtype tS pre0 t0 d pre t a n ttl cr _ s'' outs links
+    hidle hn0 hpre hn hact' hun' hbefore hlate hex'
+  have hlt : lastTime t (evs ++ [(te, Op.cancel (a ++ "!"))]) = te := by
+    rw [lastTime_append]; rfl
+  rw [hlt] at hch
+  exact ⟨w', h1, h2, chain_mono_H hE hch⟩
+
+open C10 in
+/-- … in particular **at least one refresh query of the instance's own schedule strictly before the expiry**, whenever a quarter of
+the TTL exceeds two delays (always, within the property's quantifier: TTL ≥ 1125 s gives 281 s, delays are ≤ 60 s): a query for
+its type in `[w − minDelay, w + 2·minDelay]`, `w = cr + 750·ttl`.  A second and third attempt follow from `C10_removed_after_attempts`
+with `links = 2, 3` when `150·ttl > 3·minDelay`, resp. `50·ttl > 4·minDelay` (ms). -/
+theorem C10_removed_after_attempt (types : List String) (minDelay : Nat) (qtype : Option Bool) (tS : Int) (pre0 : List (Int × Op))
+    (t0 : Int) (d : Nat) (pre : List (Int × Op)) (t : Int) (a n : String) (ttl : Nat) (cr : Int) (evs : List (Int × Op)) (te : Int)
+    (s' : S) (outs : List Send)
+    (hidle : IdleOps pre0) (hn0 : SameType a n pre0) (hpre : Active pre) (hn : SameType a n pre)
+    (hact : Active evs) (hun : Untouched a evs)
+    (hbefore : t + minDelay ≤ cr + 750 * ttl) (hlate : t0 + d + 14000 + minDelay ≤ cr + 750 * ttl)
+    (hexp : Gen.Dns.is_expired cr ttl te = true) (hroom : 2 * minDelay < 250 * ttl)
+    (hex : exec (browserCfg types minDelay qtype) {} tS
+      (pre0 ++ (t0, .start d) :: (pre ++ (t, .ptr a n ttl cr) :: (evs ++ [(te, .cancel a)]))) = some (s', outs)) :
+    ∃ o ∈ outs, cr + 750 * ttl - minDelay ≤ o.t ∧ o.t ≤ cr + 750 * ttl + 2 * minDelay ∧ o.t < cr + 1000 * ttl ∧ n ∈ o.types := by
+  obtain ⟨w', h1, h2, hch⟩ := C10_removed_after_attempts types minDelay qtype tS pre0 t0 d pre t a n ttl cr evs te s' outs 1
+    hidle hn0 hpre hn hact hun hbefore hlate hexp hex
+  have hmd : (browserCfg types minDelay qtype).minDelay = minDelay := rfl
+  rcases hch with h | ⟨o, ho, h3, h4, h5, _⟩
+  · rw [hmd] at h; omega
+  · rw [hmd] at h4; exact ⟨o, ho, by omega, by omega, by omega, h5⟩
+
+/-- non-vacuity: a history accepted by the loop axioms in which a record expires unanswered — 75 %, 85 %, 95 % queries, idle passes, then the
+`cancel` block at the expiry instant — and the hypotheses of `C10_removed_after_attempt` for it -/
+example :
+    ((exec (browserCfg ["_x"] 10000 none) {} 0
+      ([] ++ (0, .start 50) :: ([(50, Op.fire false), (1050, .fire false), (5050, .fire false), (14050, .fire false)] ++
+        (20000, .ptr "a" "_x" 1125 20000) :: ([(24050, Op.fire false), (863750, .fire false), (976250, .fire false), (1088750, .fire false),
+          (1098750, .fire false), (1108750, .fire false), (1118750, .fire false), (1128750, .fire false), (1138750, .fire false)] ++
+          [(1145000, .cancel "a")])))).map (fun r => r.2.map (·.t))) = some [50, 1050, 5050, 14050, 863750, 976250, 1088750] ∧
+    Gen.Dns.is_expired 20000 (1125 : Nat) 1145000 = true ∧ 2 * (10000 : Nat) < 250 * (1125 : Nat) ∧
+    (20000 : Int) + (10000 : Nat) ≤ 20000 + 750 * (1125 : Nat) := by
+  decide
+
 /-- `Chain` unfolded for the first two links, for readers: the 75 % query and the 85 % one -/
 example (c : Cfg) (name : String) (ttl : Nat) (expire H : Int) (outs : List Send) (w : Int) :
     Chain c name ttl expire H outs 2 w ↔
@@ -451,6 +725,38 @@ theorem C10_refresh_chain2 (types : List String) (minDelay : Nat) (qtype : Optio
     Chain (browserCfg types minDelay qtype) n ttl (cr + 1000 * ttl) (lastTime t evs) outs links (cr + 750 * ttl) :=
   C10_refresh_chain types minDelay qtype tS pre0 t0 d pre t a n ttl cr evs (Sched2.abs s') outs links hidle hnew0 hpre hnew hact hun
     hbefore hlate (exec2_sound _ inv2_init hex).1
+
+open Zc.Sched2 in
+/-- `C10_refreshed_chain` on the two-container model (the chain of a refreshed record, true bound `[w − minDelay, w + 2·minDelay]`) -/
+theorem C10_refreshed_chain2 (types : List String) (minDelay : Nat) (qtype : Option Bool) (tS : Int) (pre0 : List (Int × Op))
+    (t0 : Int) (d : Nat) (pre : List (Int × Op)) (t : Int) (a n : String) (ttl : Nat) (cr : Int) (evs : List (Int × Op))
+    (s' : S2) (outs : List Send) (links : Nat)
+    (hidle : IdleOps pre0) (hn0 : SameType a n pre0) (hpre : Active pre) (hn : SameType a n pre)
+    (hact : Active evs) (hun : Untouched a evs)
+    (hbefore : t + minDelay ≤ cr + 750 * ttl) (hlate : t0 + d + 14000 + minDelay ≤ cr + 750 * ttl)
+    (hex : exec2 (browserCfg types minDelay qtype) {} tS
+      (pre0 ++ (t0, .start d) :: (pre ++ (t, .ptr a n ttl cr) :: evs)) = .ok (s', outs)) :
+    ∃ w', cr + 750 * ttl - minDelay ≤ w' ∧ w' ≤ cr + 750 * ttl + minDelay ∧
+      Chain (browserCfg types minDelay qtype) n ttl (cr + 1000 * ttl) (lastTime t evs) outs links w' := by
+  obtain ⟨w', h1, h2, _, h3⟩ := C10_refreshed_chain types minDelay qtype tS pre0 t0 d pre t a n ttl cr evs (Sched2.abs s') outs links
+    hidle hn0 hpre hn hact hun hbefore hlate (exec2_sound _ inv2_init hex).1
+  exact ⟨w', h1, h2, h3⟩
+
+open Zc.Sched2 in
+/-- `C10_removed_after_attempt` on the two-container model: an instance reported Removed by expiry has had a refresh query of its
+own schedule before the expiry -/
+theorem C10_removed_after_attempt2 (types : List String) (minDelay : Nat) (qtype : Option Bool) (tS : Int) (pre0 : List (Int × Op))
+    (t0 : Int) (d : Nat) (pre : List (Int × Op)) (t : Int) (a n : String) (ttl : Nat) (cr : Int) (evs : List (Int × Op)) (te : Int)
+    (s' : S2) (outs : List Send)
+    (hidle : IdleOps pre0) (hn0 : SameType a n pre0) (hpre : Active pre) (hn : SameType a n pre)
+    (hact : Active evs) (hun : Untouched a evs)
+    (hbefore : t + minDelay ≤ cr + 750 * ttl) (hlate : t0 + d + 14000 + minDelay ≤ cr + 750 * ttl)
+    (hexp : Gen.Dns.is_expired cr ttl te = true) (hroom : 2 * minDelay < 250 * ttl)
+    (hex : exec2 (browserCfg types minDelay qtype) {} tS
+      (pre0 ++ (t0, .start d) :: (pre ++ (t, .ptr a n ttl cr) :: (evs ++ [(te, .cancel a)]))) = .ok (s', outs)) :
+    ∃ o ∈ outs, cr + 750 * ttl - minDelay ≤ o.t ∧ o.t ≤ cr + 750 * ttl + 2 * minDelay ∧ o.t < cr + 1000 * ttl ∧ n ∈ o.types :=
+  C10_removed_after_attempt types minDelay qtype tS pre0 t0 d pre t a n ttl cr evs te (Sched2.abs s') outs
+    hidle hn0 hpre hn hact hun hbefore hlate hexp hroom (exec2_sound _ inv2_init hex).1
 
 open Zc.Sched2 in
 /-- the D7 history runs on the two-container model with the same sends; afterwards the dict holds exactly the two live objects -/
